@@ -1,1 +1,709 @@
+(* C10 lemmas, part 1: the procedural resolution of the execution configuration (the mutation order
+   of v2 ProposerConfig, the v1 lookup) is the documented precedence [resolve]. *)
 From Verif Require Import Lib.Base Model.C10_ExecConfig.
+From Coq Require Import Lia Permutation.
+Local Open Scope list_scope.
+
+(* ------------------------------------------------------------------------------------------- *)
+(* Well-formedness: Go maps have unique keys *)
+
+Definition keys {A} (m : list (N * A)) : list N := map fst m.
+
+Definition wf_proposer (p : proposer) : Prop := NoDup (keys (p_relays p)).
+Definition wf_config2 (c : config2) : Prop :=
+  NoDup (keys (e_relays c)) /\ Forall wf_proposer (e_props c).
+Definition wf_config1 (c : config1) : Prop := NoDup (keys (c1_props c)).
+Definition wf_config (c : config) : Prop :=
+  match c with CV1 c1 => wf_config1 c1 | CV2 c2 => wf_config2 c2 end.
+
+(* ------------------------------------------------------------------------------------------- *)
+(* Association lists *)
+
+Lemma Neqb_memb_spec : forall x l, memb N.eqb x l = true <-> In x l.
+Proof. intros x l. apply memb_spec. intros a b. apply N.eqb_eq. Qed.
+
+Lemma memb_false_not_In : forall x l, memb N.eqb x l = false <-> ~ In x l.
+Proof.
+  intros x l. rewrite <- Neqb_memb_spec. destruct (memb N.eqb x l); split; intro H; congruence.
+Qed.
+
+Lemma nodupb_sound : forall l, nodupb l = true -> NoDup l.
+Proof.
+  induction l as [|x l IH]; cbn; intro H; [constructor|].
+  apply andb_true_iff in H as [H1 H2]. constructor; [|apply IH, H2].
+  apply memb_false_not_In, negb_true_iff, H1.
+Qed.
+
+Lemma aget_Some_In {A} : forall (m : list (N * A)) k x, aget m k = Some x -> In (k, x) m.
+Proof.
+  induction m as [|[k' y] m IH]; intros k x H; cbn in H; [discriminate|].
+  destruct (k' =? k) eqn:E.
+  - apply N.eqb_eq in E. injection H as ->. subst. left; reflexivity.
+  - right. apply IH, H.
+Qed.
+
+Lemma aget_None_iff {A} : forall (m : list (N * A)) k, aget m k = None <-> ~ In k (keys m).
+Proof.
+  induction m as [|[k' y] m IH]; intros k; cbn.
+  - split; auto.
+  - destruct (k' =? k) eqn:E.
+    + apply N.eqb_eq in E. split; [discriminate | intro H; exfalso; apply H; left; exact E].
+    + apply N.eqb_neq in E. rewrite IH. split; intro H.
+      * intros [H1 | H1]; [exact (E H1) | exact (H H1)].
+      * intro H1. apply H. right. exact H1.
+Qed.
+
+Lemma aget_In {A} : forall (m : list (N * A)) k x,
+  NoDup (keys m) -> In (k, x) m -> aget m k = Some x.
+Proof.
+  induction m as [|[k' y] m IH]; intros k x Hnd Hin; cbn in *; [destruct Hin|].
+  inversion Hnd as [|? ? Hnotin Hnd']; subst.
+  destruct Hin as [Heq | Hin].
+  - injection Heq as -> ->. rewrite N.eqb_refl. reflexivity.
+  - destruct (k' =? k) eqn:E.
+    + apply N.eqb_eq in E. subst k'. exfalso. apply Hnotin.
+      change k with (fst (k, x)). apply in_map. exact Hin.
+    + apply IH; assumption.
+Qed.
+
+Lemma aget_memb_false {A} : forall (m : list (N * A)) k,
+  memb N.eqb k (keys m) = false -> aget m k = None.
+Proof. intros m k H. apply aget_None_iff. apply memb_false_not_In. exact H. Qed.
+
+Lemma aget_Some_key {A} : forall (m : list (N * A)) k x, aget m k = Some x -> In k (keys m).
+Proof. intros m k x H. apply aget_Some_In in H. change k with (fst (k, x)). apply in_map, H. Qed.
+
+(* lookups in key-unique association lists do not depend on the order of the entries *)
+Lemma aget_perm {A} : forall (m m' : list (N * A)) k,
+  NoDup (keys m) -> Permutation m m' -> aget m k = aget m' k.
+Proof.
+  intros m m' k Hnd Hp.
+  assert (Hnd' : NoDup (keys m')).
+  { unfold keys. eapply Permutation_NoDup; [apply Permutation_map, Hp | exact Hnd]. }
+  destruct (aget m k) as [x|] eqn:E.
+  - symmetry. apply aget_In; [exact Hnd'|]. eapply Permutation_in; [exact Hp|]. apply aget_Some_In, E.
+  - symmetry. apply aget_None_iff. rewrite aget_None_iff in E. intro H. apply E.
+    unfold keys in *. eapply Permutation_in; [apply Permutation_map, Permutation_sym, Hp | exact H].
+Qed.
+
+(* ------------------------------------------------------------------------------------------- *)
+(* One inherited relay: base options, proposer-level overwrite, proposer-relay update *)
+
+Ltac crush_fields :=
+  cbv [or_opt or_else obind first_some];
+  repeat match goal with
+         | |- context [match ?x with _ => _ end] => destruct x
+         end; reflexivity.
+
+Lemma existing_relay : forall c p fbfee fbgas a br,
+  p_reset p = false ->
+  aget (e_relays c) a = Some br ->
+  update_existing p (apply_proposer_level p (initial_relay c (or_else (e_fee c) fbfee) fbgas a br)) =
+    if relay_disabled p a then [] else [resolve_relay c p fbfee fbgas a].
+Proof.
+  intros c p fbfee fbgas a br Hr Hbr.
+  unfold update_existing, relay_disabled, resolve_relay, inherited.
+  rewrite Hr, Hbr. cbn [apply_proposer_level initial_relay set_relay_config rc_addr].
+  destruct (aget (p_relays p) a) as [pr|] eqn:Epr.
+  - destruct (pr_disabled pr); [reflexivity|]. f_equal.
+    destruct c as [efee egas egrace emin erelays eprops], p as [sel pfee pgas pgrace pmin prst prel],
+             br as [bpk bfee bgas bgrace bmin], pr as [pdis ppk ppfee ppgas ppgrace ppmin].
+    cbv [update_relay_config apply_proposer_level initial_relay set_relay_config
+         rc_addr rc_pk rc_fee rc_gas rc_grace rc_min e_fee e_gas e_grace e_min
+         p_fee p_gas p_grace p_min br_pk br_fee br_gas br_grace br_min
+         pr_pk pr_fee pr_gas pr_grace pr_min].
+    f_equal; crush_fields.
+  - f_equal.
+    destruct c as [efee egas egrace emin erelays eprops], p as [sel pfee pgas pgrace pmin prst prel],
+             br as [bpk bfee bgas bgrace bmin].
+    cbv [apply_proposer_level initial_relay set_relay_config
+         rc_addr rc_pk rc_fee rc_gas rc_grace rc_min e_fee e_gas e_grace e_min
+         p_fee p_gas p_grace p_min br_pk br_fee br_gas br_grace br_min].
+    f_equal; crush_fields.
+Qed.
+
+Lemma existing_relays : forall c p fbfee fbgas (l : list (N * base_relay)),
+  p_reset p = false ->
+  (forall a br, In (a, br) l -> aget (e_relays c) a = Some br) ->
+  flat_map (update_existing p)
+           (map (apply_proposer_level p)
+                (map (fun ab => initial_relay c (or_else (e_fee c) fbfee) fbgas (fst ab) (snd ab)) l)) =
+    map (resolve_relay c p fbfee fbgas) (filter (fun a => negb (relay_disabled p a)) (keys l)).
+Proof.
+  intros c p fbfee fbgas l Hr. induction l as [|[a br] l IH]; intro H; [reflexivity|].
+  cbn [map flat_map keys fst snd filter].
+  rewrite (existing_relay c p fbfee fbgas a br Hr (H a br (or_introl eq_refl))).
+  fold (keys l). rewrite IH by (intros a' br' Hin; apply H; right; exact Hin).
+  destruct (relay_disabled p a); reflexivity.
+Qed.
+
+Lemma updated_addrs : forall c p fee fbgas (l : list (N * base_relay)),
+  map rc_addr (map (apply_proposer_level p)
+                   (map (fun ab => initial_relay c fee fbgas (fst ab) (snd ab)) l)) = keys l.
+Proof. intros. rewrite !map_map. reflexivity. Qed.
+
+(* one relay only the proposer names *)
+Lemma new_relay : forall c p fbfee fbgas a pr,
+  aget (p_relays p) a = Some pr ->
+  aget (inherited c p) a = None ->
+  generate_relay_config c p a pr fbfee fbgas = resolve_relay c p fbfee fbgas a.
+Proof.
+  intros c p fbfee fbgas a pr Hpr Hbr. unfold resolve_relay, generate_relay_config.
+  rewrite Hpr, Hbr.
+  destruct c as [efee egas egrace emin erelays eprops], p as [sel pfee pgas pgrace pmin prst prel],
+           pr as [pdis ppk ppfee ppgas ppgrace ppmin].
+  cbv [rc_addr rc_pk rc_fee rc_gas rc_grace rc_min e_fee e_gas e_grace e_min
+       p_fee p_gas p_grace p_min pr_pk pr_fee pr_gas pr_grace pr_min].
+  f_equal; crush_fields.
+Qed.
+
+Lemma added_relays : forall c p fbfee fbgas (l : list (N * prop_relay)),
+  (forall a pr, In (a, pr) l -> aget (p_relays p) a = Some pr) ->
+  flat_map (add_new c p (keys (inherited c p)) fbfee fbgas) l =
+    map (resolve_relay c p fbfee fbgas)
+        (filter (fun a => negb (relay_disabled p a))
+                (filter (fun a => negb (memb N.eqb a (keys (inherited c p)))) (keys l))).
+Proof.
+  intros c p fbfee fbgas l. induction l as [|[a pr] l IH]; intro H; [reflexivity|].
+  cbn [flat_map keys map fst filter]. fold (keys l).
+  rewrite IH by (intros a' pr' Hin; apply H; right; exact Hin).
+  unfold add_new at 1. cbn [fst snd].
+  pose proof (H a pr (or_introl eq_refl)) as Hpr.
+  destruct (memb N.eqb a (keys (inherited c p))) eqn:Em; cbn [orb negb]; [reflexivity|].
+  cbn [filter]. unfold relay_disabled at 2. rewrite Hpr.
+  destruct (pr_disabled pr); cbn [negb app map]; [reflexivity|].
+  rewrite (new_relay c p fbfee fbgas a pr Hpr (aget_memb_false _ _ Em)). reflexivity.
+Qed.
+
+(* ------------------------------------------------------------------------------------------- *)
+(* setProposerConfigOptions on the base configuration = the precedence with that entry *)
+
+Definition base_cfg (c : config2) (fbfee fbgas : N) : prop_cfg :=
+  let fee := or_else (e_fee c) fbfee in
+  {| pc_fee := fee; pc_relays := set_initial_relay_options c fee fbgas |}.
+
+Lemma options_is_resolve_with : forall c p fbfee fbgas,
+  NoDup (keys (e_relays c)) -> wf_proposer p ->
+  set_proposer_config_options c (base_cfg c fbfee fbgas) p fbfee fbgas = resolve_with c p fbfee fbgas.
+Proof.
+  intros c p fbfee fbgas Hc Hp.
+  unfold set_proposer_config_options, resolve_with, base_cfg, set_initial_relay_options.
+  cbn [pc_fee pc_relays].
+  assert (Hfee : or_else (p_fee p) (or_else (e_fee c) fbfee) = first_some [p_fee p; e_fee c] fbfee)
+    by (destruct (p_fee p), (e_fee c); reflexivity).
+  rewrite Hfee. apply f_equal.
+  - unfold resolve_addrs. rewrite filter_app, map_app.
+    assert (Hupd : map rc_addr (if p_reset p then []
+                     else map (apply_proposer_level p)
+                            (map (fun ab => initial_relay c (or_else (e_fee c) fbfee) fbgas (fst ab) (snd ab))
+                                 (e_relays c))) = keys (inherited c p)).
+    { unfold inherited. destruct (p_reset p); [reflexivity | apply updated_addrs]. }
+    rewrite Hupd. f_equal.
+    + unfold inherited. destruct (p_reset p) eqn:Er; [reflexivity|].
+      apply existing_relays; [exact Er|]. intros a br Hin. apply aget_In; assumption.
+    + apply added_relays. intros a pr Hin. apply aget_In; assumption.
+Qed.
+
+(* without a matching entry nothing is changed: the base configuration is the precedence with an
+   entry that says nothing *)
+Lemma base_is_resolve_with_empty : forall c fbfee fbgas,
+  NoDup (keys (e_relays c)) ->
+  base_cfg c fbfee fbgas = resolve_with c empty_proposer fbfee fbgas.
+Proof.
+  intros c fbfee fbgas Hc.
+  rewrite <- (options_is_resolve_with c empty_proposer fbfee fbgas Hc) by constructor.
+  unfold set_proposer_config_options, base_cfg. cbn [p_fee p_reset p_relays empty_proposer pc_fee pc_relays or_else flat_map].
+  rewrite app_nil_r. f_equal.
+  induction (set_initial_relay_options c (or_else (e_fee c) fbfee) fbgas) as [|rc l IH]; [reflexivity|].
+  cbn [map flat_map]. rewrite <- IH. unfold update_existing. cbn [p_relays aget apply_proposer_level rc_addr app].
+  destruct rc; reflexivity.
+Qed.
+
+(* ------------------------------------------------------------------------------------------- *)
+(* setProposerSpecificOptions: the scan stops at the first match *)
+
+Lemma specific_is_first_match : forall c cfg ps v fbfee fbgas,
+  set_proposer_specific_options c cfg ps v fbfee fbgas =
+    match first_match ps v with
+    | None => None
+    | Some None => Some cfg
+    | Some (Some p) => Some (set_proposer_config_options c cfg p fbfee fbgas)
+    end.
+Proof.
+  intros c cfg ps v fbfee fbgas. induction ps as [|p ps IH]; cbn; [reflexivity|].
+  destruct (matches p v); [reflexivity | exact IH | reflexivity].
+Qed.
+
+Lemma first_match_In : forall ps v p, first_match ps v = Some (Some p) -> In p ps /\ matches p v = MYes.
+Proof.
+  induction ps as [|q ps IH]; intros v p H; cbn in H; [discriminate|].
+  destruct (matches q v) eqn:E.
+  - injection H as ->. split; [left; reflexivity | exact E].
+  - destruct (IH v p H) as [H1 H2]. split; [right; exact H1 | exact H2].
+  - discriminate.
+Qed.
+
+(* The mutation order of the code computes the documented precedence. *)
+Lemma v2_is_resolve : forall c v fbfee fbgas,
+  wf_config2 c -> proposer_config_v2 c v fbfee fbgas = resolve_v2 c v fbfee fbgas.
+Proof.
+  intros c v fbfee fbgas [Hc Hps]. unfold proposer_config_v2, resolve_v2.
+  rewrite specific_is_first_match. fold (base_cfg c fbfee fbgas).
+  destruct (first_match (e_props c) v) as [[p|]|] eqn:E; [| |reflexivity].
+  - f_equal. apply options_is_resolve_with; [exact Hc|].
+    apply first_match_In in E as [Hin _]. rewrite Forall_forall in Hps. apply Hps, Hin.
+  - f_equal. apply base_is_resolve_with_empty, Hc.
+Qed.
+
+(* ------------------------------------------------------------------------------------------- *)
+(* First match only *)
+
+Lemma first_match_app : forall pre p post v,
+  Forall (fun q => matches q v = MNo) pre -> matches p v = MYes ->
+  first_match (pre ++ p :: post) v = Some (Some p).
+Proof.
+  induction pre as [|q pre IH]; intros p post v Hpre Hp; cbn.
+  - rewrite Hp. reflexivity.
+  - inversion Hpre as [|? ? Hq Hpre']; subst. rewrite Hq. apply IH; assumption.
+Qed.
+
+Lemma first_match_none : forall ps v,
+  Forall (fun q => matches q v = MNo) ps -> first_match ps v = Some None.
+Proof.
+  induction ps as [|q ps IH]; intros v H; cbn; [reflexivity|].
+  inversion H as [|? ? Hq H']; subst. rewrite Hq. apply IH, H'.
+Qed.
+
+(* the converse decompositions *)
+Lemma first_match_Some_inv : forall ps v p,
+  first_match ps v = Some (Some p) ->
+  exists pre post, ps = pre ++ p :: post /\ Forall (fun q => matches q v = MNo) pre /\ matches p v = MYes.
+Proof.
+  induction ps as [|q ps IH]; intros v p H; cbn in H; [discriminate|].
+  destruct (matches q v) eqn:E.
+  - injection H as ->. exists [], ps. repeat split; [constructor | exact E].
+  - destruct (IH v p H) as [pre [post [-> [H1 H2]]]].
+    exists (q :: pre), post. repeat split; [constructor; assumption | exact H2].
+  - discriminate.
+Qed.
+
+Lemma first_match_None_inv : forall ps v,
+  first_match ps v = None <->
+  exists pre q post, ps = pre ++ q :: post /\ Forall (fun q => matches q v = MNo) pre /\ matches q v = MInvalid.
+Proof.
+  induction ps as [|q ps IH]; intros v; cbn.
+  - split; [discriminate|]. intros [pre [q [post [H _]]]]. destruct pre; discriminate.
+  - destruct (matches q v) eqn:E.
+    + split; [discriminate|]. intros [pre [q' [post [H [H1 H2]]]]].
+      destruct pre as [|x pre]; cbn in H; injection H as -> ->.
+      * congruence.
+      * inversion H1; congruence.
+    + rewrite IH. split.
+      * intros [pre [q' [post [-> [H1 H2]]]]]. exists (q :: pre), q', post.
+        repeat split; [constructor; assumption | exact H2].
+      * intros [pre [q' [post [H [H1 H2]]]]].
+        destruct pre as [|x pre]; cbn in H; injection H as -> ->; [congruence|].
+        inversion H1; subst. exists pre, q', post. repeat split; assumption.
+    + split; [intros _|reflexivity]. exists [], q, ps. repeat split; [constructor | exact E].
+Qed.
+
+Lemma matches_invalid_iff : forall p v, matches p v = MInvalid <-> p_sel p = SelKey 0.
+Proof.
+  intros p v. unfold matches. destruct (p_sel p) as [k|r].
+  - destruct (k =? 0) eqn:E.
+    + apply N.eqb_eq in E. subst. split; reflexivity.
+    + apply N.eqb_neq in E. destruct (k =? v_key v); split; try discriminate; intro H; injection H; congruence.
+  - destruct (memb N.eqb r (v_accts v)); split; discriminate.
+Qed.
+
+(* [resolve_with] does not look at the list of proposer entries at all *)
+Definition with_props (c : config2) (ps : list proposer) : config2 :=
+  {| e_fee := e_fee c; e_gas := e_gas c; e_grace := e_grace c; e_min := e_min c;
+     e_relays := e_relays c; e_props := ps |}.
+
+Lemma resolve_with_props : forall c ps p fbfee fbgas,
+  resolve_with (with_props c ps) p fbfee fbgas = resolve_with c p fbfee fbgas.
+Proof. reflexivity. Qed.
+
+Lemma v2_first_match_only : forall c pre p post v fbfee fbgas,
+  wf_config2 c -> e_props c = pre ++ p :: post ->
+  Forall (fun q => matches q v = MNo) pre -> matches p v = MYes ->
+  proposer_config_v2 c v fbfee fbgas = Some (resolve_with c p fbfee fbgas).
+Proof.
+  intros c pre p post v fbfee fbgas Hwf He Hpre Hp.
+  rewrite v2_is_resolve by exact Hwf. unfold resolve_v2. rewrite He.
+  rewrite (first_match_app pre p post v Hpre Hp). reflexivity.
+Qed.
+
+Lemma v2_no_match : forall c v fbfee fbgas,
+  wf_config2 c -> Forall (fun q => matches q v = MNo) (e_props c) ->
+  proposer_config_v2 c v fbfee fbgas = Some (resolve_with c empty_proposer fbfee fbgas).
+Proof.
+  intros c v fbfee fbgas Hwf H. rewrite v2_is_resolve by exact Hwf. unfold resolve_v2.
+  rewrite (first_match_none _ _ H). reflexivity.
+Qed.
+
+Lemma v2_error_iff : forall c v fbfee fbgas,
+  wf_config2 c ->
+  (proposer_config_v2 c v fbfee fbgas = None <->
+   exists pre q post, e_props c = pre ++ q :: post /\
+                      Forall (fun q => matches q v = MNo) pre /\ p_sel q = SelKey 0).
+Proof.
+  intros c v fbfee fbgas Hwf. rewrite v2_is_resolve by exact Hwf. unfold resolve_v2.
+  destruct (first_match (e_props c) v) as [[p|]|] eqn:E.
+  - split; [discriminate|]. intros H.
+    assert (E' : first_match (e_props c) v = None).
+    { apply first_match_None_inv. destruct H as [pre [q [post [H1 [H2 H3]]]]].
+      exists pre, q, post. repeat split; try assumption. apply matches_invalid_iff, H3. }
+    congruence.
+  - split; [discriminate|]. intros H.
+    assert (E' : first_match (e_props c) v = None).
+    { apply first_match_None_inv. destruct H as [pre [q [post [H1 [H2 H3]]]]].
+      exists pre, q, post. repeat split; try assumption. apply matches_invalid_iff, H3. }
+    congruence.
+  - split; [intros _|reflexivity]. apply first_match_None_inv in E.
+    destruct E as [pre [q [post [H1 [H2 H3]]]]]. exists pre, q, post.
+    repeat split; try assumption. apply (matches_invalid_iff q v), H3.
+Qed.
+
+(* ------------------------------------------------------------------------------------------- *)
+(* The relay set of the precedence, as a set *)
+
+Lemma resolve_relay_addr : forall c p fbfee fbgas a, rc_addr (resolve_relay c p fbfee fbgas a) = a.
+Proof. reflexivity. Qed.
+
+Lemma resolve_addrs_In : forall c p a,
+  In a (resolve_addrs c p) <->
+  (In a (keys (inherited c p)) \/ In a (keys (p_relays p))) /\ relay_disabled p a = false.
+Proof.
+  intros c p a. unfold resolve_addrs. fold (keys (inherited c p)) (keys (p_relays p)).
+  rewrite filter_In, in_app_iff, filter_In, negb_true_iff, negb_true_iff, memb_false_not_In.
+  split.
+  - intros [[H | [H _]] Hd]; split; auto.
+  - intros [[H | H] Hd]; split; auto.
+    destruct (in_dec N.eq_dec a (keys (inherited c p))) as [Hi | Hi]; [left; exact Hi | right; split; assumption].
+Qed.
+
+Lemma NoDup_filter {A} (f : A -> bool) : forall l, NoDup l -> NoDup (filter f l).
+Proof.
+  induction l as [|x l IH]; intro H; cbn; [constructor|].
+  inversion H as [|? ? Hx Hl]; subst. destruct (f x); [constructor|]; auto.
+  intro Hin. apply filter_In in Hin as [Hin _]. exact (Hx Hin).
+Qed.
+
+Lemma NoDup_app_intro {A} : forall (l1 l2 : list A),
+  NoDup l1 -> NoDup l2 -> (forall x, In x l1 -> ~ In x l2) -> NoDup (l1 ++ l2).
+Proof.
+  induction l1 as [|x l1 IH]; intros l2 H1 H2 Hd; cbn; [exact H2|].
+  inversion H1 as [|? ? Hx Hl]; subst. constructor.
+  - rewrite in_app_iff. intros [H | H]; [exact (Hx H) | exact (Hd x (or_introl eq_refl) H)].
+  - apply IH; try assumption. intros y Hy. apply Hd. right. exact Hy.
+Qed.
+
+Lemma inherited_NoDup : forall c p, NoDup (keys (e_relays c)) -> NoDup (keys (inherited c p)).
+Proof. intros c p H. unfold inherited. destruct (p_reset p); [constructor | exact H]. Qed.
+
+Lemma resolve_addrs_NoDup : forall c p,
+  NoDup (keys (e_relays c)) -> wf_proposer p -> NoDup (resolve_addrs c p).
+Proof.
+  intros c p Hc Hp. unfold resolve_addrs. apply NoDup_filter.
+  fold (keys (inherited c p)) (keys (p_relays p)). apply NoDup_app_intro.
+  - apply inherited_NoDup, Hc.
+  - apply NoDup_filter, Hp.
+  - intros x Hx Hin. apply filter_In in Hin as [_ Hin].
+    rewrite negb_true_iff, memb_false_not_In in Hin. exact (Hin Hx).
+Qed.
+
+(* Exactly the relays the precedence names, each once, each with the values of the precedence. *)
+Lemma resolve_with_relays : forall c p fbfee fbgas,
+  NoDup (keys (e_relays c)) -> wf_proposer p ->
+  let out := resolve_with c p fbfee fbgas in
+  pc_fee out = first_some [p_fee p; e_fee c] fbfee /\
+  NoDup (map rc_addr (pc_relays out)) /\
+  forall r, In r (pc_relays out) <->
+            ((In (rc_addr r) (keys (inherited c p)) \/ In (rc_addr r) (keys (p_relays p))) /\
+             relay_disabled p (rc_addr r) = false /\
+             r = resolve_relay c p fbfee fbgas (rc_addr r)).
+Proof.
+  intros c p fbfee fbgas Hc Hp out. subst out. unfold resolve_with. cbn [pc_fee pc_relays].
+  split; [reflexivity|]. split.
+  - rewrite map_map. cbn [resolve_relay rc_addr]. rewrite map_id. apply resolve_addrs_NoDup; assumption.
+  - intro r. rewrite in_map_iff. split.
+    + intros [a [<- Ha]]. rewrite resolve_relay_addr. apply resolve_addrs_In in Ha as [H1 H2]. auto.
+    + intros [H1 [H2 H3]]. exists (rc_addr r). split; [symmetry; exact H3|].
+      apply resolve_addrs_In. split; assumption.
+Qed.
+
+(* reset_relays: what the relay level says is discarded altogether *)
+Definition with_relays (c : config2) (rs : list (N * base_relay)) : config2 :=
+  {| e_fee := e_fee c; e_gas := e_gas c; e_grace := e_grace c; e_min := e_min c;
+     e_relays := rs; e_props := e_props c |}.
+
+Lemma reset_discards_inherited : forall c p rs fbfee fbgas,
+  p_reset p = true ->
+  resolve_with (with_relays c rs) p fbfee fbgas = resolve_with c p fbfee fbgas.
+Proof.
+  intros c p rs fbfee fbgas Hr. unfold resolve_with, resolve_addrs, resolve_relay, inherited.
+  rewrite Hr. reflexivity.
+Qed.
+
+Lemma disabled_removed : forall c p fbfee fbgas a pr,
+  aget (p_relays p) a = Some pr -> pr_disabled pr = true ->
+  ~ In a (map rc_addr (pc_relays (resolve_with c p fbfee fbgas))).
+Proof.
+  intros c p fbfee fbgas a pr Hpr Hd. unfold resolve_with. cbn [pc_relays].
+  rewrite map_map. cbn [resolve_relay rc_addr]. rewrite map_id. rewrite resolve_addrs_In.
+  intros [_ H]. unfold relay_disabled in H. rewrite Hpr in H. congruence.
+Qed.
+
+Lemma named_relay_present : forall c p fbfee fbgas a pr,
+  aget (p_relays p) a = Some pr -> pr_disabled pr = false ->
+  In (resolve_relay c p fbfee fbgas a) (pc_relays (resolve_with c p fbfee fbgas)).
+Proof.
+  intros c p fbfee fbgas a pr Hpr Hd. unfold resolve_with. cbn [pc_relays].
+  apply in_map. apply resolve_addrs_In. split.
+  - right. eapply aget_Some_key, Hpr.
+  - unfold relay_disabled. rewrite Hpr. exact Hd.
+Qed.
+
+Lemma inherited_relay_present : forall c p fbfee fbgas a,
+  In a (keys (e_relays c)) -> p_reset p = false -> relay_disabled p a = false ->
+  In (resolve_relay c p fbfee fbgas a) (pc_relays (resolve_with c p fbfee fbgas)).
+Proof.
+  intros c p fbfee fbgas a Ha Hr Hd. unfold resolve_with. cbn [pc_relays].
+  apply in_map. apply resolve_addrs_In. split; [|exact Hd].
+  left. unfold inherited. rewrite Hr. exact Ha.
+Qed.
+
+(* ------------------------------------------------------------------------------------------- *)
+(* Go map iteration order is irrelevant: permuting the entries of every relay map permutes the
+   resulting relay list and changes nothing else. *)
+
+Record proposer_equiv (p p' : proposer) : Prop := {
+  pe_sel : p_sel p = p_sel p';
+  pe_fee : p_fee p = p_fee p'; pe_gas : p_gas p = p_gas p';
+  pe_grace : p_grace p = p_grace p'; pe_min : p_min p = p_min p';
+  pe_reset : p_reset p = p_reset p';
+  pe_relays : Permutation (p_relays p) (p_relays p') }.
+
+Record config2_equiv (c c' : config2) : Prop := {
+  ce_fee : e_fee c = e_fee c'; ce_gas : e_gas c = e_gas c';
+  ce_grace : e_grace c = e_grace c'; ce_min : e_min c = e_min c';
+  ce_relays : Permutation (e_relays c) (e_relays c');
+  ce_props : Forall2 proposer_equiv (e_props c) (e_props c') }.
+
+Definition prop_cfg_equiv (a b : prop_cfg) : Prop :=
+  pc_fee a = pc_fee b /\ Permutation (pc_relays a) (pc_relays b).
+
+Definition opt_cfg_equiv (a b : option prop_cfg) : Prop :=
+  match a, b with
+  | Some x, Some y => prop_cfg_equiv x y
+  | None, None => True
+  | _, _ => False
+  end.
+
+Lemma filter_perm {A} (f : A -> bool) : forall l l', Permutation l l' -> Permutation (filter f l) (filter f l').
+Proof.
+  intros l l' H. induction H as [|x l l' H IH|x y l|l l' l'' H1 IH1 H2 IH2]; cbn.
+  - constructor.
+  - destruct (f x); [constructor|]; exact IH.
+  - destruct (f x), (f y); try reflexivity. apply perm_swap.
+  - eapply perm_trans; eassumption.
+Qed.
+
+Lemma memb_perm : forall (l l' : list N) a, Permutation l l' -> memb N.eqb a l = memb N.eqb a l'.
+Proof.
+  intros l l' a H. destruct (memb N.eqb a l') eqn:E.
+  - apply Neqb_memb_spec. apply Neqb_memb_spec in E. eapply Permutation_in; [apply Permutation_sym, H | exact E].
+  - apply memb_false_not_In. apply memb_false_not_In in E. intro Hin. apply E. eapply Permutation_in; eassumption.
+Qed.
+
+Lemma first_match_equiv : forall ps ps' v,
+  Forall2 proposer_equiv ps ps' ->
+  match first_match ps v, first_match ps' v with
+  | None, None => True
+  | Some None, Some None => True
+  | Some (Some p), Some (Some p') => proposer_equiv p p' /\ In p ps
+  | _, _ => False
+  end.
+Proof.
+  intros ps ps' v H. induction H as [|p p' ps ps' Hp H IH]; cbn; [exact I|].
+  assert (Hm : matches p v = matches p' v) by (unfold matches; rewrite (pe_sel _ _ Hp); reflexivity).
+  rewrite <- Hm. destruct (matches p v).
+  - split; [exact Hp | left; reflexivity].
+  - destruct (first_match ps v) as [[q|]|], (first_match ps' v) as [[q'|]|]; try exact IH.
+    destruct IH as [H1 H2]. split; [exact H1 | right; exact H2].
+  - exact I.
+Qed.
+
+Lemma resolve_with_equiv : forall c c' p p' fbfee fbgas,
+  NoDup (keys (e_relays c)) -> wf_proposer p ->
+  config2_equiv c c' -> proposer_equiv p p' ->
+  prop_cfg_equiv (resolve_with c p fbfee fbgas) (resolve_with c' p' fbfee fbgas).
+Proof.
+  intros c c' p p' fbfee fbgas Hc Hp Hcc Hpp.
+  destruct Hcc as [Hf Hg Hgr Hm Hr _]. destruct Hpp as [_ Hpf Hpg Hpgr Hpm Hprs Hprel].
+  assert (Hinh : Permutation (inherited c p) (inherited c' p')).
+  { unfold inherited. rewrite <- Hprs. destruct (p_reset p); [constructor | exact Hr]. }
+  assert (HinhND : NoDup (keys (inherited c p))) by (apply inherited_NoDup, Hc).
+  assert (Hgb : forall a, aget (inherited c p) a = aget (inherited c' p') a)
+    by (intro a; apply aget_perm; assumption).
+  assert (Hgp : forall a, aget (p_relays p) a = aget (p_relays p') a)
+    by (intro a; apply aget_perm; assumption).
+  assert (Hrel : forall a, resolve_relay c p fbfee fbgas a = resolve_relay c' p' fbfee fbgas a).
+  { intro a. unfold resolve_relay. rewrite (Hgb a), (Hgp a), Hf, Hg, Hgr, Hm, Hpf, Hpg, Hpgr, Hpm. reflexivity. }
+  split.
+  - unfold resolve_with. cbn [pc_fee]. rewrite Hf, Hpf. reflexivity.
+  - unfold resolve_with. cbn [pc_relays].
+    rewrite (map_ext _ _ Hrel). apply Permutation_map. unfold resolve_addrs.
+    assert (Hk : Permutation (map fst (inherited c p)) (map fst (inherited c' p'))) by (apply Permutation_map, Hinh).
+    assert (Hkp : Permutation (map fst (p_relays p)) (map fst (p_relays p'))) by (apply Permutation_map, Hprel).
+    rewrite (filter_ext (fun a => negb (relay_disabled p a)) (fun a => negb (relay_disabled p' a)))
+      by (intro a; unfold relay_disabled; rewrite (Hgp a); reflexivity).
+    apply filter_perm. apply Permutation_app; [exact Hk|].
+    rewrite (filter_ext (fun a => negb (memb N.eqb a (map fst (inherited c p))))
+                        (fun a => negb (memb N.eqb a (map fst (inherited c' p')))))
+      by (intro a; rewrite (memb_perm _ _ a Hk); reflexivity).
+    apply filter_perm, Hkp.
+Qed.
+
+Lemma resolve_v2_order_irrelevant : forall c c' v fbfee fbgas,
+  wf_config2 c -> config2_equiv c c' ->
+  opt_cfg_equiv (resolve_v2 c v fbfee fbgas) (resolve_v2 c' v fbfee fbgas).
+Proof.
+  intros c c' v fbfee fbgas [Hc Hps] Hcc. unfold resolve_v2.
+  pose proof (first_match_equiv _ _ v (ce_props _ _ Hcc)) as H.
+  destruct (first_match (e_props c) v) as [[p|]|], (first_match (e_props c') v) as [[p'|]|];
+    try contradiction; cbn [opt_cfg_equiv]; try exact I.
+  - destruct H as [H1 H2]. apply resolve_with_equiv; try assumption.
+    rewrite Forall_forall in Hps. apply Hps, H2.
+  - apply resolve_with_equiv; try assumption; [constructor|].
+    constructor; reflexivity.
+Qed.
+
+Lemma wf_config2_equiv : forall c c', wf_config2 c -> config2_equiv c c' -> wf_config2 c'.
+Proof.
+  intros c c' [Hc Hps] Hcc. split.
+  - unfold keys. eapply Permutation_NoDup; [apply Permutation_map, (ce_relays _ _ Hcc) | exact Hc].
+  - pose proof (ce_props _ _ Hcc) as H. induction H as [|p p' ps ps' Hp H IH]; [constructor|].
+    inversion Hps as [|? ? Hwp Hps']; subst. constructor; [|apply IH, Hps'].
+    unfold wf_proposer, keys in *. eapply Permutation_NoDup; [apply Permutation_map, (pe_relays _ _ Hp) | exact Hwp].
+Qed.
+
+Lemma v2_order_irrelevant : forall c c' v fbfee fbgas,
+  wf_config2 c -> config2_equiv c c' ->
+  opt_cfg_equiv (proposer_config_v2 c v fbfee fbgas) (proposer_config_v2 c' v fbfee fbgas).
+Proof.
+  intros c c' v fbfee fbgas Hwf Hcc.
+  rewrite (v2_is_resolve c) by exact Hwf.
+  rewrite (v2_is_resolve c') by (eapply wf_config2_equiv; eassumption).
+  apply resolve_v2_order_irrelevant; assumption.
+Qed.
+
+(* ------------------------------------------------------------------------------------------- *)
+(* Version 1 *)
+
+Lemma v1_is_resolve : forall c key fbfee fbgas,
+  proposer_config_v1 c key fbfee fbgas = resolve_v1 c key fbfee fbgas.
+Proof.
+  intros c key fbfee fbgas. unfold proposer_config_v1, resolve_v1, select1.
+  destruct (aget (c1_props c) key) as [[q|]|].
+  - destruct (q_builder q) as [b|]; reflexivity.
+  - destruct (c1_default c) as [q|]; cbn [or_else]; [|reflexivity].
+    destruct (q_builder q) as [b|]; reflexivity.
+  - destruct (c1_default c) as [q|]; cbn [or_else]; [|reflexivity].
+    destruct (q_builder q) as [b|]; reflexivity.
+Qed.
+
+(* the legacy lookup spelled out: the entry of the key, else the default, else the fallback *)
+Lemma v1_lookup_cases : forall c key fbfee fbgas,
+  let out := proposer_config_v1 c key fbfee fbgas in
+  let of_entry (q : proposer1) :=
+    pc_fee out = q_fee q /\
+    forall r, In r (pc_relays out) <->
+      exists b, q_builder q = Some b /\ b_enabled b = true /\ In (rc_addr r) (b_relays b) /\
+                r = {| rc_addr := rc_addr r; rc_pk := None; rc_fee := q_fee q;
+                       rc_gas := if q_gas q =? 0 then fbgas else q_gas q;
+                       rc_grace := b_grace b; rc_min := dec_zero |} in
+  match aget (c1_props c) key with
+  | Some (Some q) => of_entry q
+  | Some None | None =>
+      match c1_default c with
+      | Some q => of_entry q
+      | None => out = {| pc_fee := fbfee; pc_relays := [] |}
+      end
+  end.
+Proof.
+  intros c key fbfee fbgas out of_entry.
+  assert (Hentry : forall q, out = resolve_v1 {| c1_props := [(key, Some q)]; c1_default := None |} key fbfee fbgas -> of_entry q).
+  { intros q Hq. unfold of_entry. rewrite Hq. unfold resolve_v1, select1. cbn [aget c1_props]. rewrite N.eqb_refl.
+    cbn [pc_fee pc_relays]. split; [reflexivity|]. intro r.
+    destruct (q_builder q) as [b|].
+    - destruct (b_enabled b) eqn:Eb.
+      + rewrite in_map_iff. split.
+        * intros [a [<- Ha]]. exists b. cbn [rc_addr]. auto.
+        * intros [b' [Hb' [_ [Hin Hr]]]]. injection Hb' as <-. exists (rc_addr r). split; [symmetry; exact Hr | exact Hin].
+      + split; [intros []|]. intros [b' [Hb' [He _]]]. injection Hb' as <-. congruence.
+    - split; [intros []|]. intros [b' [Hb' _]]. discriminate. }
+  subst out. rewrite v1_is_resolve in *. unfold resolve_v1, select1 in *. cbn [aget c1_props] in Hentry.
+  rewrite N.eqb_refl in Hentry.
+  destruct (aget (c1_props c) key) as [[q|]|].
+  - apply Hentry. reflexivity.
+  - destruct (c1_default c) as [q|]; cbn [or_else].
+    + apply Hentry. reflexivity.
+    + reflexivity.
+  - destruct (c1_default c) as [q|]; cbn [or_else].
+    + apply Hentry. reflexivity.
+    + reflexivity.
+Qed.
+
+(* the order of the proposer_config map is irrelevant *)
+Lemma v1_order_irrelevant : forall c ps' key fbfee fbgas,
+  wf_config1 c -> Permutation (c1_props c) ps' ->
+  proposer_config_v1 {| c1_props := ps'; c1_default := c1_default c |} key fbfee fbgas =
+  proposer_config_v1 c key fbfee fbgas.
+Proof.
+  intros c ps' key fbfee fbgas Hwf Hp. unfold proposer_config_v1. cbn [c1_props c1_default].
+  rewrite <- (aget_perm (c1_props c) ps' key Hwf Hp). reflexivity.
+Qed.
+
+(* The per-value reading of docs/execlayer.md: the code agrees with it on every lookup whose key
+   has no entry or a complete entry (gas limit and builder present) ... *)
+Lemma v1_fieldwise_partial : forall c key fbfee fbgas,
+  v1_entry_complete c key = true ->
+  proposer_config_v1 c key fbfee fbgas = resolve_v1_doc c key fbfee fbgas.
+Proof.
+  intros c key fbfee fbgas H. unfold v1_entry_complete in H.
+  unfold proposer_config_v1, resolve_v1_doc.
+  destruct (aget (c1_props c) key) as [[q|]|].
+  - apply andb_true_iff in H as [Hg Hb]. apply negb_true_iff in Hg.
+    destruct (q_builder q) as [b|] eqn:Eb; [|discriminate].
+    unfold gas_of1. cbn [option_map obind first_some or_opt]. rewrite Eb, Hg. reflexivity.
+  - destruct (c1_default c) as [d|]; cbn [option_map obind first_some or_opt]; [|reflexivity].
+    unfold gas_of1. destruct (q_gas d =? 0); destruct (q_builder d) as [b|]; reflexivity.
+  - destruct (c1_default c) as [d|]; cbn [option_map obind first_some or_opt]; [|reflexivity].
+    unfold gas_of1. destruct (q_gas d =? 0); destruct (q_builder d) as [b|]; reflexivity.
+Qed.
+
+(* ... and not otherwise: the example of the document itself. *)
+Lemma v1_fieldwise_refuted :
+  exists c key fbfee fbgas,
+    proposer_config_v1 c key fbfee fbgas <> resolve_v1_doc c key fbfee fbgas.
+Proof.
+  exists {| c1_props := [(1, Some {| q_fee := 11; q_gas := 0; q_builder := None |})];
+            c1_default := Some {| q_fee := 12; q_gas := 0;
+                                  q_builder := Some {| b_enabled := true; b_grace := 0; b_relays := [1; 2] |} |} |},
+         1, 99, 30000000.
+  cbv. discriminate.
+Qed.
+
+(* ------------------------------------------------------------------------------------------- *)
+(* Both versions *)
+
+Lemma lookup_is_resolve : forall c v fbfee fbgas,
+  wf_config c -> lookup c v fbfee fbgas = resolve c v fbfee fbgas.
+Proof.
+  intros [c1|c2] v fbfee fbgas Hwf; cbn [lookup resolve].
+  - rewrite v1_is_resolve. reflexivity.
+  - rewrite v2_is_resolve by exact Hwf. reflexivity.
+Qed.
